@@ -134,6 +134,21 @@ def Deadlocked (ths : List ThL) : Prop :=
   (∃ th ∈ ths, th.waits.isSome) ∧
   ∀ th ∈ ths, ∀ w, th.waits = some w → ∃ u ∈ ths, w ∈ u.holds ∧ u.waits.isSome
 
+/-- the three kinds of locks of the library -/
+inductive Role | buffer | file | cls
+deriving DecidableEq, Repr
+
+/-- the hierarchy: class-wide buffer lock, then a file's lock, then the class registry lock -/
+def Role.rank : Role → Nat
+  | .buffer => 0
+  | .file => 1
+  | .cls => 2
+
+/-- audit of one (non-reentrant) acquisition: the lock being acquired is ranked strictly above
+every lock the thread already holds.  The harness evaluates this on every acquisition it observes
+on the real code. -/
+def acquireOk (held : List Role) (l : Role) : Bool := held.all (fun h => h.rank < l.rank)
+
 end Locks
 
 /-! ### the lock bracket of one operation, with exception edges (C10) -/
